@@ -103,6 +103,16 @@ def make_oracle(numeric, mono, decreasing, bound_numeric=True):
     return oracle
 
 
+def _evaluates_to_none(value, atoms):
+    """value is a conditional expression whose selected arm is the constant None"""
+    while value[0] == 'ifexp':
+        c = bool_eval(value[1], atoms)
+        if c is None:
+            return False
+        value = value[2] if c else value[3]
+    return value == T.CONST_NONE
+
+
 def check_bound(ctx, fi, scen, which, path, value):
     """Compare one returned bound with the specification, for all small (n, s)."""
     decreasing, stepkind, given = scen['dec'], scen['step'], scen[which]
@@ -181,7 +191,7 @@ def check_bound(ctx, fi, scen, which, path, value):
                 continue
             raw = (s if not decreasing else n - s) - (0 if positive else 1)
             got = int_eval(value, atoms) if value != T.CONST_NONE else None
-            if value != T.CONST_NONE and got is None:
+            if value != T.CONST_NONE and got is None and not _evaluates_to_none(value, atoms):
                 ctx.undecide('R2', '%s: cannot evaluate %s' % (label, T.show(value)))
                 return False
             if raw >= 0:
